@@ -89,6 +89,9 @@ def util_step():
             e = bits if neg == '!' else bits - 1
             if bits == 64 and neg == '!':
                 k64[r] = k
+                # algorithm_u128 writes at most three chunks of k digits: needs (N^k)^2 >= 2^64 (unit wi_u128 relies on it)
+                facts.append(("min_step_%d[64,unsigned] three chunks cover 128 bits" % r,
+                              "pw(%d, %d) >= pw(2, 32)" % (r, k), a.group(0).strip()))
             facts.append(("min_step_%d[%d,%s]" % (r, bits, "unsigned" if neg else "signed"),
                           "pw(%d, %d) <= pw(2, %d)" % (r, k, e), a.group(0).strip()))
     for m in re.finditer(r'fn u128_divrem_(\d+)\(n: u128\) -> \(u128, u64\) \{\s*(\w+)\(([^)]*)\)\s*\}', div):
